@@ -41,7 +41,9 @@ func (req *SrvReq) packReply(pack func() error) (late bool, err error) {
 		return true, nil
 	}
 	verifPoint("respond.guarded", req, 0, 0)
-	return false, pack()
+	err = pack()
+	verifPoint("respond.packed", req, 0, 0)
+	return false, err
 }
 
 // Packs an Rerror into the reply buffer. If the text does not fit (the
